@@ -195,6 +195,7 @@ PROPS = {
         quick=rc(8, 2500),
         thorough=rc(14, 60000) + fuzz(2, 60000, max_len=260),
         assumptions=["order of links and of parameters is not constrained (hash / list order)"],
+        **SIM,
     ),
     "C16": dict(
         level="exploration",
